@@ -390,42 +390,42 @@ package agent
 //@ define crank(a, b) := ite(cgoeq(a, b), 1, ite(flt(cabs(a), cabs(b)), 0, ite(fgt(cabs(a), cabs(b)), 2, ite(flt(cphase(a), cphase(b)), 0, ite(fgt(cphase(a), cphase(b)), 2, 1)))))
 
 //@ func (*collator_).rankBooleans
-//@   props C07 C08 C19
+//@   props C07 C08 C19 C02
 //@   nopanic
 //@   noinv
 //@   ensures[C07] result == brank(first, second)
 //@ func (*collator_).rankBytes
-//@   props C07 C08 C19
+//@   props C07 C08 C19 C02
 //@   nopanic
 //@   noinv
 //@   ensures[C07] result == irank(first, second)
 //@ func (*collator_).rankRunes
-//@   props C07 C08 C19
+//@   props C07 C08 C19 C02
 //@   nopanic
 //@   noinv
 //@   ensures[C07] result == irank(first, second)
 //@ func (*collator_).rankSigned
-//@   props C07 C08 C19
+//@   props C07 C08 C19 C02
 //@   nopanic
 //@   noinv
 //@   ensures[C07] result == irank(first, second)
 //@ func (*collator_).rankUnsigned
-//@   props C07 C08 C19
+//@   props C07 C08 C19 C02
 //@   nopanic
 //@   noinv
 //@   ensures[C07] result == irank(first, second)
 //@ func (*collator_).rankFloats
-//@   props C07 C08 C19
+//@   props C07 C08 C19 C02
 //@   nopanic
 //@   noinv
 //@   ensures[C07] result == frank(first, second)
 //@ func (*collator_).rankComplex
-//@   props C07 C08 C19
+//@   props C07 C08 C19 C02
 //@   nopanic
 //@   noinv
 //@   ensures[C07] result == crank(first, second)
 //@ func (*collator_).rankStrings
-//@   props C07 C08 C19
+//@   props C07 C08 C19 C02
 //@   nopanic
 //@   noinv
 //@   ensures[C07] result == srank(first, second)
@@ -576,10 +576,10 @@ package agent
 //@   defines result == gtype(type_)
 
 //@ func (*collator_).rankValues
-//@   props C08 C07 C19
+//@   props C08 C07 C19 C02
 //@   modifies this.depth_, cstate(this)
 //@   decreases this.maximum_ - this.depth_, 3, ptrh(first)
-//@   ensures[C08] this.depth_ == old(this.depth_)
+//@   ensures[C08,C07] this.depth_ == old(this.depth_)
 //@   defines result == rv(this, first, second)
 //@   ensures[C07] !rvalid(first) && !rvalid(second) ==> result == 1
 //@   ensures[C07] !rvalid(first) && rvalid(second) ==> result == 0
@@ -592,11 +592,11 @@ package agent
 //@ define er(c, a, b, j) := rv(c, rindex(a, j), rindex(b, j))
 //@ define lexpost(c, a, b, r) := ((forall j :: 0 <= j && j < rlen(a) ==> er(c, a, b, j) == 1) ==> r == ite(rlen(a) < rlen(b), 0, 1)) && (forall k :: 0 <= k && k < rlen(a) && er(c, a, b, k) != 1 && (forall j :: 0 <= j && j < k ==> er(c, a, b, j) == 1) ==> r == er(c, a, b, k))
 //@ func (*collator_).rankArrays
-//@   props C08 C07 C19
+//@   props C08 C07 C19 C02
 //@   ensures[C07] result <= 2
 //@   modifies this.depth_, cstate(this)
 //@   decreases this.maximum_ - this.depth_, 1, ite(rlen(first) > rlen(second), 1, 0)
-//@   ensures[C08] this.depth_ == old(this.depth_)
+//@   ensures[C08,C07] this.depth_ == old(this.depth_)
 //@   ensures[C07] rlen(first) <= rlen(second) ==> lexpost(this, first, second, result)
 //@   ensures[C07] rlen(first) > rlen(second) ==> lexpost(this, second, first, 2 - result)
 //@   loop 1:
@@ -604,13 +604,13 @@ package agent
 //@     invariant forall j :: 0 <= j && j < i ==> er(this, first, second, j) == 1
 //@     decreases firstSize - i
 //@ func (*collator_).rankMaps
-//@   props C08 C07 C19
+//@   props C08 C07 C19 C02
 //@   ensures[C07] result <= 2
 //@   ensures[C07] rlen(first) == 0 ==> result == ite(rlen(second) > 0, 0, 1)
 //@   ensures[C07] rlen(second) == 0 && rlen(first) > 0 ==> result == 2
 //@   modifies this.depth_, cstate(this)
 //@   decreases this.maximum_ - this.depth_, 1, ite(rlen(first) > rlen(second), 1, 0)
-//@   ensures[C08] this.depth_ == old(this.depth_)
+//@   ensures[C08,C07] this.depth_ == old(this.depth_)
 //@   uses cnt_pos, cnt_none
 //@   hint[C07] call SortValues#1: forall i :: { firstKeys[i] } 0 <= i && i < len(firstKeys) ==> cnt(view(firstKeys), 0, len(firstKeys), firstKeys[i]) >= 1
 //@   hint[C07] call SortValues#1: forall i :: { firstKeys[i] } 0 <= i && i < len(firstKeys) ==> rkeyof(firstKeys[i], first)
@@ -624,26 +624,26 @@ package agent
 //@     invariant (forall j :: { firstKeys[j] } 0 <= j && j < len(firstKeys) ==> rkeyof(firstKeys[j], first)) && (forall j :: { secondKeys[j] } 0 <= j && j < len(secondKeys) ==> rkeyof(secondKeys[j], second))
 //@     decreases firstSize - i
 //@ func (*collator_).rankSequences
-//@   props C08 C07 C19
+//@   props C08 C07 C19 C02
 //@   ensures[C07] result <= 2
 //@   modifies this.depth_, cstate(this)
 //@   decreases this.maximum_ - this.depth_, 2
-//@   ensures[C08] this.depth_ == old(this.depth_)
+//@   ensures[C08,C07] this.depth_ == old(this.depth_)
 //@ func (*collator_).rankInterfaces
-//@   props C08 C07 C19
+//@   props C08 C07 C19 C02
 //@   ensures[C07] result <= 2
 //@   modifies this.depth_, cstate(this)
 //@   decreases this.maximum_ - this.depth_, 2
-//@   ensures[C08] this.depth_ == old(this.depth_)
+//@   ensures[C08,C07] this.depth_ == old(this.depth_)
 //@   loop 1:
 //@     invariant 0 <= index && this.depth_ == old(this.depth_) && this.depth_ < this.maximum_
 //@     decreases count - index
 //@ func (*collator_).rankStructures
-//@   props C08 C07 C19
+//@   props C08 C07 C19 C02
 //@   ensures[C07] result <= 2
 //@   modifies this.depth_, cstate(this)
 //@   decreases this.maximum_ - this.depth_, 2
-//@   ensures[C08] this.depth_ == old(this.depth_)
+//@   ensures[C08,C07] this.depth_ == old(this.depth_)
 //@   loop 1:
 //@     invariant 0 <= index && this.depth_ == old(this.depth_) && this.depth_ < this.maximum_
 //@     decreases count - index
@@ -674,7 +674,7 @@ package agent
 // each primitive kind is ranked by its natural order (reflect kinds: Bool 1, Int 2, Int8 3, Int16 4, Int32 5, Int64 6,
 // Uint 7, Uint8 8, Uint16 9, Uint32 10, Uint64 11, Float32 13, Float64 14, Complex64 15, Complex128 16, String 24)
 //@ func (*collator_).rankIntrinsics
-//@   props C08 C07 C19
+//@   props C08 C07 C19 C02
 //@   ensures[C07] result <= 2
 //@   ensures[C07] rkind(first) == 1 ==> result == brank(rbool(first), rbool(second))
 //@   ensures[C07] rkind(first) == 8 ==> result == irank(ruint(first) % 256, ruint(second) % 256)
@@ -685,12 +685,12 @@ package agent
 //@   ensures[C07] rkind(first) == 15 || rkind(first) == 16 ==> result == crank(rcplx(first), rcplx(second))
 //@   ensures[C07] rkind(first) == 24 ==> result == srank(rstr(first), rstr(second))
 //@   xensures[C07] !((1 <= rkind(first) && rkind(first) <= 11) || (13 <= rkind(first) && rkind(first) <= 16) || rkind(first) == 24)
-//@   ensures[C08] this.depth_ == old(this.depth_)
+//@   ensures[C08,C07] this.depth_ == old(this.depth_)
 //@ func (*collator_).RankValues
-//@   props C08 C07 C19
+//@   props C08 C07 C19 C02
 //@   modifies this.depth_, cstate(this)
-//@   ensures[C08] this.depth_ == old(this.depth_)
-//@   xensures[C08] this.depth_ == old(this.depth_)
+//@   ensures[C08,C07] this.depth_ == old(this.depth_)
+//@   xensures[C08,C07] this.depth_ == old(this.depth_)
 
 //@ assume func reflect.TypeOf
 //@   nopanic
